@@ -222,6 +222,12 @@ def reject_cases(seed=0):
             for I0 in (1.0, 250.0):
                 attempt(f"constant imbalance {mag}", terminal_currents=dict(source=I0, drain=-I0 * (1 + mag)))
                 attempt(f"callable imbalance {mag}", terminal_currents=lambda t, I0=I0, mag=mag: dict(source=I0, drain=-I0 * (1 + mag)))
+        # currents given as a function of time that are balanced when the run starts and unbalanced later: the problem is ill-posed as a whole and must be
+        # refused up front (a rejection that only comes while stepping has already created the output).  "later" covers at least half of the
+        # solve time, so the sampled validation of the unchanged code meets it with probability 1 - 2^-100.
+        for I0 in (1.0, 250.0):
+            attempt("callable balanced only at t = 0", terminal_currents=lambda t, I0=I0: dict(source=I0, drain=-I0 * (1 + 0.5 * (t > 0))))
+            attempt("callable unbalanced during the second half of the run", terminal_currents=lambda t, I0=I0: dict(source=I0, drain=-I0 * (1 + 0.5 * (t > 0.1))))
         attempt("epsilon above one", disorder_epsilon=1.5)
         attempt("epsilon above one somewhere", disorder_epsilon=lambda r: 1.0 + (r[0] > 0) * 1e-3)
         attempt("dt_init > dt_max", options=dict(dt_init=1.0, dt_max=0.1))
